@@ -13,6 +13,6 @@ for name, fn in prog.fns.items():
     if pat in name and "hir" in fn:
         print("== %s  (%s)" % (name, prog.span(name)))
         if "--json" in sys.argv:
-            print(json.dumps(fn["hir"], indent=1)[:20000])
+            print(json.dumps(fn["hir"] if "--raw" in sys.argv else prog.hir(name), indent=1)[:20000])
         else:
-            print(hirq.render(fn["hir"]))
+            print(hirq.render(fn["hir"] if "--raw" in sys.argv else prog.hir(name)))
